@@ -70,7 +70,8 @@ def make_classes(F, tr: Trace):
     class RecStack(C.Stack):
         def __init__(self, max_items=1024, max_item_size=1024):
             super().__init__(max_items, max_item_size)
-            self.deque = RecDeque(maxlen=self.max_items)
+            # same contents and the same bound as the deque the real constructor made (not the bound it *should* have)
+            self.deque = RecDeque(self.deque, maxlen=self.deque.maxlen)
         def put(self, item):
             RecDeque.in_put = True
             try:
@@ -172,6 +173,17 @@ class Instrumented:
                 if 'returned' in cache:
                     tr.fetch_with_return += 1
                     tr.flag('fetch-with-return-pending', name)
+                before = tape.pointer
+                try:
+                    return op_(tape, stack, cache)
+                finally:
+                    # however an instruction moves over its operands (read, move_pointer or arithmetic on the pointer),
+                    # it must stay inside the script and never go backwards
+                    if tape.pointer > len(tape.data):
+                        tr.flag('pointer-past-end', (name, tape.pointer, len(tape.data)))
+                    if tape.pointer < before:
+                        tr.flag('pointer-moved-backwards', (name, before, tape.pointer))
+            def op_(tape, stack, cache):
                 if is_call:
                     pend[0] = True
                     try:
